@@ -65,7 +65,7 @@ CHECKS = {
  'C13': dict(
    technique="TLA+ lattice model of point-to-segment distance (RadialRange.tla: closed form for lines, exact witness distances for curves) model-checked with TLC; every (segment, query point) case replayed through radialrange / closest_point_in_path / farthest_point_in_path",
    text="TLC checks LineMinIsMin, LineMaxAtEnd and WitnessBounds along the walk over the witnesses for 10 lattice segments (lines, parabola with its centre of curvature and focus, cusped, folded and S-shaped cubics) x 15 query points (far, near, on the curve, beyond the ends); each case - plain, scaled 1e-3 with an offset, rotated 30 degrees and scaled 1e4 - must return parameters in [0,1], d = |point(t)-z|, no witness closer than dmin or farther than dmax, the exact projection on lines and 0 for points on the curve; random paths of model segments: the extreme over the segments with the index of the segment attaining it.",
-   note="Trusted: TLC. Optimality between witnesses (spacing 1/8, 1/16 thorough) is not decided for curved segments.",
+   note="Trusted: TLC. Optimality between witnesses (spacing 1/8, 1/10 thorough) is not decided for curved segments.",
    ref="4 (C13)"),
  'C14': dict(
    technique="TLA+ lattice model of signed area (shoelace / Green's formula for polynomial segments) and of even-odd enclosure by exact orientation predicates with a general-position predicate (Area.tla) model-checked with TLC; every polygon, probe and containment pair replayed through area / path_encloses_pt / is_contained_by; the underlying affine algebra (composition = composition of maps, associativity, det multiplicative, evaluation commutes with the map, area scales by det) proved for all integers with Apalache (spec/apalache/MC_Affine.tla)",
